@@ -6,10 +6,10 @@ import Sebuf.Lemmas.PropsC12
 
 `Sound` (full statement): every breach of a documented rule, wherever it sits in the request,
 makes go-http fail (and go-client for the JSON-mapping rules other than unwrap).
-The current code does not satisfy it (`not_sound_imported`, `not_sound_repeated_path_field`);
+The current code does not satisfy it (`not_sound_imported`, `repeated_path_field_refused`);
 `sound_partial_goHttp` / `sound_partial_goClient` prove it for offenders inside a file to
 generate, for every rule except the two whose proof is not carried (`flattenCollision`, decided
-by correspondence only) or which the code does not implement (`pathVarNotSingular`), and for
+by correspondence only), and for
 enum conflicts on non-map fields.
 
 The theorems are about `Impl.runGoHttp`/`runGoClient`, which interpret the call sequence of
@@ -177,11 +177,12 @@ theorem oneof_breach_rejected (rq : Request) (f : File) (hf : f ∈ generated rq
 
 /-- **C12 soundness, partial (go-http and go-client)**: a breach of a documented rule inside a
 file to generate makes go-http answer with an error; for the JSON-mapping rules other than
-unwrap the go-client plugin fails too. Not covered: `pathVarNotSingular` (not implemented by the
-code, witness below), `flattenCollision` (decided by the correspondence run only). -/
+unwrap the go-client plugin fails too. Not covered: `flattenCollision` (decided by the
+correspondence run only). `pathVarNotSingular` is covered since `fix: go-http: refuse path
+variables bound to repeated or map fields`. -/
 theorem sound_partial (rq : Request) (f : File) (hf : f ∈ generated rq) (hmap : NoEnumEncOnMaps f)
     (b : Breach) (hb : b ∈ fileBreaches rq f)
-    (h1 : b.rule ≠ .pathVarNotSingular) (h2 : b.rule ≠ .flattenCollision) :
+    (h2 : b.rule ≠ .flattenCollision) :
     (runGoHttp rq).isSome = true ∧
     (b.rule.isJsonMapping = true → b.rule.isUnwrap = false → (runGoClient rq).isSome = true) := by
   unfold fileBreaches at hb
@@ -223,7 +224,7 @@ theorem sound_partial (rq : Request) (f : File) (hf : f ∈ generated rq) (hmap 
   · -- HTTP rules: ValidateService runs for files with services
     obtain ⟨s, hs, hbs⟩ := List.mem_flatMap.mp hb
     obtain ⟨meth, hmeth, hbm⟩ := List.mem_flatMap.mp hbs
-    have hfire := methodCheck_fires rq meth b f.name hbm h1
+    have hfire := methodCheck_fires rq meth b f.name hbm
     have hsvc : (f.services.findSome? (serviceCheck rq)).isSome = true :=
       findSome_isSome hs (by unfold serviceCheck; exact findSome_isSome hmeth hfire)
     obtain ⟨st, hst, hhas, hne⟩ := wiring_http
@@ -293,22 +294,21 @@ def repeatedPathWitness : Request :=
   { files := [{ name := "main.proto".toList, generate := true, messages := [listIdReq],
                 services := [{ name := "S".toList, methods := [listIdMeth] }] }] }
 
-/-- **known finding C12 `accepted:go-http:path_var_not_singular`**: a path variable bound to a
-`repeated` field is a breach (`pathVarNotSingular`) that go-http accepts: only the kind is checked. -/
-theorem repeated_path_field_accepted :
-    (∃ b ∈ breaches repeatedPathWitness, b.rule = .pathVarNotSingular) ∧ runGoHttp repeatedPathWitness = none := by
+/-- a path variable bound to a `repeated` field is a breach (`pathVarNotSingular`) and go-http
+refuses it (entry `accepted:go-http:path_var_not_singular`, fixed). -/
+theorem repeated_path_field_refused :
+    (∃ b ∈ breaches repeatedPathWitness, b.rule = .pathVarNotSingular) ∧ (runGoHttp repeatedPathWitness).isSome = true := by
   refine ⟨⟨⟨.pathVarNotSingular, "id".toList, "main.proto".toList, ".p.Req".toList⟩, ?_, rfl⟩, ?_⟩ <;> decide
 
 /-- non-vacuity of `sound_partial`: a generated file with a breach meeting every hypothesis. -/
 example : let rq : Request := { files := [{ name := "main.proto".toList, generate := true, messages := [badMsg] }] }
-    (∃ f ∈ generated rq, NoEnumEncOnMaps f ∧ ∃ b ∈ fileBreaches rq f, b.rule ≠ .pathVarNotSingular ∧ b.rule ≠ .flattenCollision)
+    (∃ f ∈ generated rq, NoEnumEncOnMaps f ∧ ∃ b ∈ fileBreaches rq f, b.rule ≠ .flattenCollision)
     ∧ (runGoHttp rq).isSome = true := by
-  refine ⟨⟨_, List.mem_singleton.mpr rfl, ?_, ⟨.nullableNotOptional, "maybe".toList, "main.proto".toList, ".p.Bad".toList⟩, ?_, ?_, ?_⟩, ?_⟩
+  refine ⟨⟨_, List.mem_singleton.mpr rfl, ?_, ⟨.nullableNotOptional, "maybe".toList, "main.proto".toList, ".p.Bad".toList⟩, ?_, ?_⟩, ?_⟩
   · intro m hm fld hfld hc
     simp at hm; subst hm
     simp [badMsg] at hfld; subst hfld
     simp [badField] at hc
-  · decide
   · decide
   · decide
   · decide
